@@ -108,6 +108,8 @@ structure App where
   world : World
   /-- `URLDecodeError` -/
   urlDecode : Exc
+  /-- the plain `UnicodeDecodeError` of a virtual-root header that is not UTF-8 -/
+  unicodeDecode : Exc
   /-- the `KeyError` of `request.path_info` when `PATH_INFO` is absent from the environ -/
   keyError : Exc
   /-- `policy.permits(request, context, permission)` is truthy exactly for these pairs -/
@@ -116,6 +118,8 @@ structure App where
 structure Req where
   /-- `environ['PATH_INFO']` as a WSGI string -/
   pathInfo : Option Bytes
+  /-- `environ['HTTP_X_VHM_ROOT']` as a WSGI string (C02's virtual root) -/
+  vroot : Option Bytes
   /-- the opaque route predicates that hold for this request -/
   routePredTrue : List Nat
   /-- what view predicates read and the router does not compute: method, parameters, headers, … (`reqSro`, `ctxSro`,
@@ -211,6 +215,11 @@ def App.ctxSro (app : App) (root : Nat) (pos : List Seg) : List Nat :=
   | some r => (r.sro.lookup pos).getD []
   | .none => []
 
+/-- what `containment=` walks: for the context and each of its ancestors (context first) everything the location
+provides (`pyramid.location.lineage` over `__parent__`; the harness's resources are location-aware) -/
+def lineageOf (app : App) (root : Nat) (pos : List Seg) : List (List Nat) :=
+  (List.range (pos.length + 1)).reverse.map fun k => app.ctxSro root (pos.take k)
+
 /-- the record view lookup sees (C03's `Request`): request interface of the matched route, resolution order of the
 context traversal found, view name traversal found, the route's match dictionary -/
 def record (app : App) (rq : Req) (a : Attrs) : ViewLookup.Request :=
@@ -223,28 +232,45 @@ def record (app : App) (rq : Req) (a : Attrs) : ViewLookup.Request :=
     viewName := match a.trav with
       | some t => String.ofList t.viewName
       | .none => ""
+    lineage := match a.root, a.trav with
+      | some i, some t => lineageOf app i t.context
+      | _, _ => []
+    physPath := match a.trav with
+      | some t => some ("" :: t.context.map String.ofList)
+      | .none => .none
     permitted := true }
+
+/-- a hook of `handle_request` together with the request attributes a subscriber / factory sees at that moment -/
+abbrev Hook := Point × Attrs
+
+/-- the exception a traverser error is -/
+def travExc (app : App) : Trav.Err → Exc
+  | .unicodeDecode => app.unicodeDecode
+  | _ => app.urlDecode
 
 /-- `handle_request` from `BeforeTraversal` up to (not including) the view lookup (lines 107-138), the route stage having
 left the attributes `a` and the matched route `d` -/
-def afterRoute (app : App) (rq : Req) (a : Attrs) (d : Option RouteDecl) : Attrs × List Point × Option Exc :=
+def afterRoute (app : App) (rq : Req) (a : Attrs) (d : Option RouteDecl) : Attrs × List Hook × Option Exc :=
   let (ri, hook) := rootIndex app d
+  let h0 : List Hook := [(.newRequest, Attrs.none), (.beforeTraversal, a), (hook, a)]
   match app.roots[ri]? with
-  | .none => (a, [.newRequest, .beforeTraversal, hook], some app.urlDecode)     -- excluded by `App.wf`
+  | .none => (a, h0, some app.urlDecode)     -- excluded by `App.wf`
   | some root =>
     match root.raises with
-    | some e => (a, [.newRequest, .beforeTraversal, hook], some e)
+    | some e => (a, h0, some e)
     | .none =>
-      match Trav.traverser root.tree ⟨rq.pathInfo, .none, a.matchdict.map travMatchdict⟩ with
-      | .error _ => ({ a with root := some ri }, [.newRequest, .beforeTraversal, hook, .traverser], some app.urlDecode)
+      let a1 := { a with root := some ri }
+      match Trav.traverser root.tree ⟨rq.pathInfo, rq.vroot, a.matchdict.map travMatchdict⟩ with
+      | .error err => (a1, h0 ++ [(.traverser, a1)], some (travExc app err))
       | .ok t =>
-        ({ a with root := some ri, trav := some t }, [.newRequest, .beforeTraversal, hook, .traverser, .contextFound], .none)
+        let a2 := { a with root := some ri, trav := some t }
+        (a2, h0 ++ [(.traverser, a1), (.contextFound, a2)], .none)
 
-/-- `handle_request` up to (not including) the view lookup: the attributes set, the hooks run, and the exception that
-ended it early, if any -/
-def handleRequest (app : App) (rq : Req) : Attrs × List Point × Option Exc :=
+/-- `handle_request` up to (not including) the view lookup: the attributes set, the hooks run (each with the attributes
+visible at that moment), and the exception that ended it early, if any -/
+def handleRequest (app : App) (rq : Req) : Attrs × List Hook × Option Exc :=
   match routeStage app rq with
-  | .none => (Attrs.none, [.newRequest], some app.urlDecode)
+  | .none => (Attrs.none, [(.newRequest, Attrs.none)], some app.urlDecode)
   | some (a, d) => afterRoute app rq a d
 
 /-- the policy's verdict for the view the lookup picks (the picked view does not depend on the verdict:
@@ -270,7 +296,9 @@ structure Outcome where
   caught : Option Exc
   /-- the request's attributes when the answering body ran -/
   attrs : Attrs
-  hooks : List Point
+  /-- what the body of the exception view saw (context = the exception, `request.exception`, `request.exc_info`) -/
+  seen : Option ExcView.Seen
+  hooks : List Hook
 deriving Repr, DecidableEq
 
 /-- the policy key of the context of the main lookup -/
@@ -288,19 +316,19 @@ def raisedWhenNoView (app : App) (rq : Req) : Exc :=
 
 /-- `excview_tween(handler)`: what happens once `handle_request` has run up to the view lookup (`early = none`) or was
 ended by an exception before it (`early = some e`), the request attributes being `a` -/
-def tween (app : App) (rq : Req) (a : Attrs) (hooks : List Point) (early : Option Exc) : Outcome :=
+def tween (app : App) (rq : Req) (a : Attrs) (hooks : List Hook) (early : Option Exc) : Outcome :=
   let r0 := record app rq a
   let site : ExcView.Site := match early with
     | some e => .early e
     | .none => .lookup
   let r1 := { r0 with permitted := verdict app ExcView.clsView (mainKey a) r0 }
   match ExcView.handler { app.world with notFound := raisedWhenNoView app rq } app.registry app.stmts site r1 0 with
-  | .ok resp => ⟨.response resp, .none, a, hooks⟩
+  | .ok resp => ⟨.response resp, .none, a, .none, hooks⟩
   | .error e =>
     let rx := ExcView.excRequest r0 e a.combinedSro
     let r2 := { r0 with permitted := verdict app ExcView.clsExc (.exc e.sro) rx }
     let res := ExcView.errorHandler app.world app.registry app.stmts (ExcView.excRequest r2 e a.combinedSro) e []
-    ⟨Final.ofExcept res.2.2, some e, a, hooks⟩
+    ⟨Final.ofExcept res.2.2, some e, a, res.2.1, hooks⟩
 
 /-- `excview_tween(handle_request)` on one request -/
 def handle (app : App) (rq : Req) : Outcome :=
